@@ -8,8 +8,14 @@ NCFG = 5
 PER_EV = 4
 FORMAT = ("script [window type 0=fixed 1=sliding log 2=sliding counter; limit; period_ms; timeout_ms; n; (op a b)*] "
           "op 1=Poll a 2=Drop a 3=Advance a(ms) 4=Complete a b(0 ok,1 err,2 panic) 5=Call a (create the call future without polling it). "
-          "trace per event [r; started; in-flight; wake mask]; r: -1 no poll, 0 pending, 1 Ok, 2 Err(Inner), 3 RateLimited, 5 panicked, 9 nothing to poll")
-TRUSTED = ["sliding counter: the binary64 weight/estimate arithmetic is modelled by exact integer/rational arithmetic; the two agree when refresh_period is a power of two milliseconds (all ratios dyadic, the 0.1 epsilon never lands on a boundary), which the generator guarantees for sliding-counter scripts",
+          "trace per event [r; started = number of inner call()s made during this poll; in-flight; wake mask]; r: -1 no poll, 0 pending, 1 Ok, 2 Err(Inner), 3 RateLimited, 5 panicked, 9 nothing to poll")
+TRUSTED = ["sliding counter: the binary64 weight/estimate arithmetic of try_acquire/estimate_wait_time is modelled by exact integer/rational arithmetic. "
+           "The two are NOT equal in general (as_secs_f64(e)/as_secs_f64(P) is already inexact for P = 64 ms, and for e.g. P = 44 ms, limit 4 the code admits at "
+           "previous 4 / current 3 / 33 ms into the bucket where the exact weighted count equals the limit); they give the same decision (admit / wait, the millisecond at which "
+           "the sleep ends, wait > whole-ms timeout) for a period P whenever counter_agrees(P) below finds no difference in an exhaustive bit-exact emulation of the Rust "
+           "expressions over every previous/current count <= limit <= 4 and every whole-ms offset in the bucket; sliding-counter scripts with limit <= 4 only use periods "
+           "that pass this test (it is re-run on import), scripts with larger limits only use decisions that need no fraction (timeout 0, whole-period gaps). "
+           "Bucket rotation (maybe_rotate_bucket) is integer arithmetic on nanoseconds in the code since fix 0566530 and equals the model's test for every period",
            "tokio sleep (fires at the first whole millisecond at/after its deadline), std Mutex around the state (never held across an await), oneshot gate",
            "poll atomicity"]
 ASSUMPTIONS = ["whole-millisecond instants", "limit_for_period >= 1, refresh_period > 0"]
@@ -33,6 +39,89 @@ def decode(s, t):
     if len(t) != PER_EV * len(evs):
         return None
     return [(e, t[PER_EV * k:PER_EV * k + PER_EV]) for k, e in enumerate(evs)]
+
+
+# ---------------------------------------------------------------------------------------------
+# bit-exact emulation of SlidingCounterState::try_acquire / estimate_wait_time (Python floats are
+# binary64 with correctly rounded + - * /) against the model's exact rationals: which periods may
+# sliding-counter scripts use?
+from fractions import Fraction as _Fr
+import math as _math
+
+
+def _as_secs_f64(ms):                       # Duration::as_secs_f64 of a whole-ms duration
+    return float(ms // 1000) + float((ms % 1000) * 1000000) / 1e9
+
+
+def _from_secs_f64_ns(x):                   # Duration::from_secs_f64: exact value, round half even to ns
+    f = _Fr(x) * 10 ** 9
+    n = _math.floor(f)
+    r = f - n
+    if r > _Fr(1, 2) or (r == _Fr(1, 2) and n % 2 == 1):
+        n += 1
+    return n
+
+
+def counter_code_f64(P, limit, prev, cur, e):
+    """None = admitted, else the wait in ns, as limiter.rs computes it e ms into the bucket"""
+    ratio = min(max(_as_secs_f64(e) / _as_secs_f64(P), 0.0), 1.0)
+    w = float(prev) * (1.0 - ratio) + float(cur)
+    if w < float(limit):
+        return None
+    if float(prev) == 0.0:
+        ns = _from_secs_f64_ns(_as_secs_f64(P) * (1.0 - ratio))
+    else:
+        target = (float(prev) + float(cur) - float(limit) + 0.1) / float(prev)
+        if target <= ratio:
+            ns = 0
+        elif target >= 1.0:
+            ns = _from_secs_f64_ns(_as_secs_f64(P) * (1.0 - ratio))
+        else:
+            ns = _from_secs_f64_ns((target - ratio) * _as_secs_f64(P))
+    return max(ns, 1)
+
+
+def counter_model_exact(P, limit, p, cur, e):
+    """None = admitted, else the wait in ms as an exact rational, as Model/RateLimiter.v computes it"""
+    if p * (P - e) + cur * P < limit * P:
+        return None
+    tiny = _Fr(1, 10 ** 6)
+    if p == 0:
+        return _Fr(P - e) if P - e > 0 else tiny
+    m = 10 * (p + cur - limit) + 1
+    if P * m <= 10 * p * e:
+        return tiny
+    if 10 * p <= m:
+        return _Fr(P - e) if P - e > 0 else tiny
+    return _Fr(P * m - 10 * p * e, 10 * p)
+
+
+def counter_disagreements(P, maxlimit=4):
+    """every (limit, previous, current, offset) at which code and model decide differently: admission, or
+    the whole millisecond at which the wait ends (which also decides every `wait > k ms` comparison)"""
+    bad = []
+    for limit in range(1, maxlimit + 1):
+        for prev in range(limit + 1):
+            for cur in range(limit + 1):
+                for e in range(P):
+                    x, y = counter_code_f64(P, limit, prev, cur, e), counter_model_exact(P, limit, prev, cur, e)
+                    if (x is None) != (y is None) or (x is not None and -(-x // 10 ** 6) != _math.ceil(y)):
+                        bad.append((limit, prev, cur, e))
+    return bad
+
+
+def counter_agrees(P, maxlimit=4):
+    return not counter_disagreements(P, maxlimit)
+
+
+# 559, 561, 672, 801: periods at which fl(2P)/fl(P) < 2.0 (the defect fixed by 0566530); 44 is a period
+# where code and exact model differ (kept in the list so that the filter is seen to filter)
+_COUNTER_CANDIDATES = [7, 10, 16, 20, 30, 32, 44, 50, 64, 100, 128, 559, 561, 672, 801]
+COUNTER_PERIODS = [P for P in _COUNTER_CANDIDATES if counter_agrees(P)]
+COUNTER_SMALL = [P for P in COUNTER_PERIODS if P <= 64]
+WIDE_PERIODS = [7, 10, 20, 30, 50, 100, 559, 561, 672, 801]
+ROTATION_REPRODUCER = [2, 1, 559, 0, 2, 1, 0, 0, 3, 1118, 0, 1, 1, 0]
+KNOWN_DEFECT = []      # scripts on which the real code violates the property (none at present)
 
 
 def corpus():
@@ -61,14 +150,65 @@ def corpus():
     # dropped while sleeping consumes nothing
     s = [0, 1, 30, 100, 4, 1, 0, 0, 1, 1, 0, 2, 1, 0, 3, 30, 0, 1, 2, 0, 1, 3, 0]
     out.append(s)
+    # reproducer of the sliding-counter rotation defect (fixed by 0566530): one admission, exactly two idle
+    # periods of 559 ms, the next call must be admitted at once (the f64 quotient 1.118/0.559 is < 2.0)
+    out.append(list(ROTATION_REPRODUCER))
+    for P in (561, 672, 801):
+        out.append([2, 1, P, 0, 2, 1, 0, 0, 3, 2 * P, 0, 1, 1, 0])
+    # same with a waiting timeout and limit 2: the fresh callers must not be put to sleep
+    out.append([2, 2, 559, 1000, 4, 1, 0, 0, 1, 1, 0, 3, 1118, 0, 1, 2, 0, 1, 3, 0])
+    # arrivals at exact multiples of a non-dyadic period, all window types
+    for wt in (0, 1, 2):
+        for P in (7, 10, 20, 30, 50, 100, 559):
+            s = [wt, 2, P, P, 8, 1, 0, 0, 1, 1, 0, 1, 2, 0, 3, P, 0, 1, 2, 0, 1, 3, 0, 3, P, 0, 1, 2, 0, 1, 3, 0, 1, 4, 0,
+                 3, 2 * P, 0, 1, 5, 0, 1, 6, 0, 1, 7, 0]
+            out.append(s)
+    # review C15 section 5: a rejected call rotates the counter's bucket; the second fresh caller at 33 is
+    # rightly rejected (conforming trace that the old spare-capacity clause flagged)
+    out.append([2, 2, 16, 0, 5, 1, 0, 0, 1, 1, 0, 3, 31, 0, 1, 2, 0, 3, 2, 0, 1, 3, 0, 1, 4, 0])
+    # sliding counter: a caller that arrives in a bucket, waits, and is admitted in the SAME bucket
+    # (clause "only by a permit of a later window" read on buckets is false for the counter)
+    out.append([2, 1, 16, 100, 3, 1, 0, 0, 3, 16, 0, 1, 1, 0, 2, 1, 0, 1, 2, 0, 3, 2, 0, 1, 2, 0])
+    # ... and no valid cutting of time has a cut between arrival (18) and admission (25) of caller 4: admissions 15,15,17,25
+    out.append([2, 2, 16, 100, 6, 3, 15, 0, 1, 0, 0, 1, 1, 0, 3, 1, 0, 1, 2, 0, 3, 1, 0, 1, 2, 0, 1, 3, 0, 3, 1, 0, 1, 4, 0,
+                3, 7, 0, 1, 4, 0])
+    # idle for two periods, then limit fresh callers spread over more than a period
+    for wt in (0, 1, 2):
+        out.append([wt, 3, 20, 0, 6, 1, 0, 0, 1, 1, 0, 3, 40, 0, 1, 2, 0, 3, 15, 0, 1, 3, 0, 3, 15, 0, 1, 4, 0, 1, 5, 0])
+    # large limits: limit+1 callers at one instant, again one / two periods later
+    for wt in (0, 1, 2):
+        out.append(wide_limit_script(wt, 64, 10, 2))
     return out
+
+
+def wide_limit_script(wt, limit, P, gap_periods):
+    """limit+1 callers polled once at one instant (timeout 0: the last is rejected), the same again
+    gap_periods periods later; only whole-period offsets, so no fraction is involved for the counter"""
+    n = 2 * (limit + 1)
+    s = [wt, limit, P, 0, n]
+    for i in range(limit + 1):
+        s += [1, i, 0]
+    s += [3, gap_periods * P, 0]
+    for i in range(limit + 1, n):
+        s += [1, i, 0]
+    return s
+
+
+def _periods(rng, wt, small=False):
+    if wt == 2:
+        return rng.choice(COUNTER_SMALL if small else [P for P in COUNTER_PERIODS if P <= 128])
+    return rng.choice([7, 10, 20, 32, 33] if small else [7, 10, 20, 33, 50, 64, 100])
 
 
 def random_script(rng, maxn=8, maxlen=50):
     wt = rng.choice([0, 0, 1, 1, 2, 2])
-    P = rng.choice([16, 32, 64]) if wt == 2 else rng.choice([10, 20, 50, 64])
+    P = _periods(rng, wt)
     limit = rng.choice([1, 1, 2, 2, 3, 4])
-    timeout = rng.choice([0, 0, P // 2, P - 1, P, P + 1, 2 * P, 3 * P + 5])
+    if wt != 2 and rng.random() < 0.1:
+        limit = rng.choice([5, 6, 7])
+    timeout = rng.choice([0, 0, P // 2, P - 1, P, P + 1, 2 * P, 3 * P + 5, 5 * P, 10 * P + 3])
+    if rng.random() < 0.1:
+        maxn = 12
     n = rng.randint(1, maxn)
     s = [wt, limit, P, timeout, n]
     L = rng.randint(3, maxlen)
@@ -90,7 +230,7 @@ def random_script(rng, maxn=8, maxlen=50):
 def burst_script(rng):
     """many callers arrive together, then time advances step by step with everyone polled at each step"""
     wt = rng.choice([0, 1, 2])
-    P = rng.choice([16, 32]) if wt == 2 else rng.choice([10, 20, 32])
+    P = rng.choice([P for P in COUNTER_SMALL if P <= 32]) if wt == 2 else rng.choice([7, 10, 20, 32])
     limit = rng.choice([1, 2, 3])
     timeout = rng.choice([0, P // 2, P, 2 * P, 3 * P])
     n = rng.randint(2, 8)
@@ -108,27 +248,61 @@ def burst_script(rng):
 
 
 def idle_script(rng):
-    """activity, then two idle periods, then limit fresh callers"""
-    wt = rng.choice([0, 1, 2])
-    P = rng.choice([16, 32]) if wt == 2 else rng.choice([10, 20])
+    """activity, then (about) two idle periods, then limit+1 fresh callers, at one instant or spread in time;
+    any period incl. the non-dyadic ones at which the f64 quotient of two periods is below 2.0"""
+    wt = rng.choice([0, 1, 2, 2])
+    P = rng.choice(COUNTER_PERIODS) if wt == 2 else rng.choice([10, 20, 33, 559, 801])
     limit = rng.choice([1, 2, 3])
     n0 = rng.randint(1, 5)
     n = n0 + limit + 1
-    s = [wt, limit, P, rng.choice([0, P, 2 * P]), n]
+    s = [wt, limit, P, rng.choice([0, 0, P, 2 * P]), n]
     for i in range(n0):
         s += [1, i, 0]
         if rng.random() < 0.5:
             s += [3, rng.choice([1, P // 2]), 0]
-    s += [3, 2 * P + rng.choice([0, 0, 1, 7]), 0]
+    s += [3, rng.choice([2 * P, 2 * P, 2 * P, 2 * P + 1, 2 * P + 7, 2 * P - 1, 3 * P, 4 * P]), 0]
+    spread = rng.random() < 0.5
     for i in range(n0, n):
         s += [1, i, 0]
+        if spread:
+            s += [3, rng.choice([1, 2, P // 3, P // 2, P - 1, P, P + 1]), 0]
     return s
+
+
+def boundary_script(rng):
+    """arrivals at exact multiples of the period (and one ms either side), new callers and woken waiters polled there"""
+    wt = rng.choice([0, 1, 2])
+    P = rng.choice(COUNTER_PERIODS) if wt == 2 else rng.choice(WIDE_PERIODS)
+    limit = rng.choice([1, 1, 2, 3, 4])
+    timeout = rng.choice([0, 0, 1, P - 1, P, P + 1, 2 * P, 3 * P])
+    n = rng.randint(3, 10)
+    s = [wt, limit, P, timeout, n]
+    nxt = 0
+    for _ in range(rng.randint(2, 6)):
+        for _ in range(rng.randint(1, 3)):
+            if nxt < n:
+                s += [1, nxt, 0]
+                nxt += 1
+        for i in range(nxt):
+            if rng.random() < 0.5:
+                s += [1, i, 0]
+        if rng.random() < 0.15 and nxt:
+            s += [2, rng.randrange(nxt), 0]
+        s += [3, rng.choice([P, P, P, 2 * P, 2 * P, 3 * P, P - 1, P + 1, 2 * P - 1, 2 * P + 1]), 0]
+    for i in range(nxt):
+        s += [1, i, 0]
+    return s
+
+
+def wide_script(rng):
+    return wide_limit_script(rng.choice([0, 1, 2]), rng.choice([5, 17, 64, 130]), rng.choice([10, 33, 64]), rng.choice([1, 2, 3]))
 
 
 def generate(rng, tier):
     k = 1 if tier == "quick" else 12
     return ([random_script(rng) for _ in range(900 * k)] + [burst_script(rng) for _ in range(250 * k)] +
-            [idle_script(rng) for _ in range(250 * k)])
+            [idle_script(rng) for _ in range(250 * k)] + [boundary_script(rng) for _ in range(150 * k)] +
+            [wide_script(rng) for _ in range(3 * k)])
 
 
 def shrink(s):
@@ -139,7 +313,10 @@ def shrink(s):
 
 
 def classify(s, t):
-    out = [("fixed", "sliding_log", "sliding_counter")[min(s[0], 2)], "timeout_%s" % ("zero" if s[3] == 0 else "below" if s[3] < s[2] else "equal" if s[3] == s[2] else "above")]
+    P = s[2]
+    out = [("fixed", "sliding_log", "sliding_counter")[min(s[0], 2)],
+           "period_%s" % ("pow2" if P & (P - 1) == 0 else "f64_two_periods_below_2" if P in (559, 561, 672, 801) else "non_dyadic"),
+           "limit_%s" % ("1_4" if s[1] <= 4 else "5_8" if s[1] <= 8 else "large"), "timeout_%s" % ("zero" if s[3] == 0 else "below" if s[3] < s[2] else "equal" if s[3] == s[2] else "above")]
     d = decode(s, t)
     if d:
         if any(o[0] == 3 for (_, o) in d):
@@ -148,7 +325,7 @@ def classify(s, t):
         waited = False
         for (e, o) in d:
             if e[0] == 1:
-                if e[1] in polled and o[1] == 1:
+                if e[1] in polled and o[1] >= 1:
                     waited = True
                 polled.add(e[1])
         if waited:
@@ -173,6 +350,91 @@ def admissions(s, t):
     for (e, o) in d:
         if e[0] == 3:
             now += max(0, e[1])
-        if e[0] == 1 and o[1] == 1:
-            out.append((now, e[1]))
+        if e[0] == 1 and o[1] >= 1:
+            out += [(now, e[1])] * o[1]
     return out
+
+
+NEG = float("-inf")
+
+
+def feasible(adm, limit, P, arrived=None, origin=None):
+    """EXACT decision of: time can be cut into consecutive windows, none shorter than P, each containing at
+    most `limit` of the admission instants `adm` (ascending integers; a window is [cut, next cut)).
+    origin=None: time is unbounded to the past, the first window is everything before the first cut (the weakest
+    reading); origin=t0: the first window starts at t0 and is itself no shorter than P.
+    arrived (optional, same length as adm): arrived[k] = a is the additional demand that the window holding
+    admission k starts after instant a ("admitted only by a permit of a later window"); None = no demand.
+
+    Why this is exact: integer cuts suffice (replace every cut by its ceiling); a window without admissions can be
+    merged into the window before it; so a solution is a split of adm into consecutive non-empty groups of size
+    <= limit, group g >= 1 starting with a cut c_g with last(group g-1) < c_g <= first(group g),
+    c_g > every arrival demanded in group g, c_g >= c_(g-1) + P. For a fixed split choosing every cut as small as
+    possible is best, and the smallest cut that can start a group at index i (over all splits of adm[:i]) is all
+    that later groups depend on: f below. Tested against brute force over all cut sets in gen/c02.py selftest."""
+    n = len(adm)
+    if arrived is None:
+        arrived = [None] * n
+    first_cut = NEG if origin is None else origin
+    if n == 0:
+        return True
+    if origin is not None and adm[0] < origin:
+        return False
+    INF = float("inf")
+    f = [INF] * (n + 1)          # f[i]: least start of a window whose first admission is adm[i], before arrival demands of that window
+    f[0] = first_cut
+    for i in range(1, n + 1):
+        # group adm[j:i], window starting at c = max(f[j], demands); next window (if i < n) starts at
+        # max(c + P, adm[i-1] + 1) and must be <= adm[i]
+        best = INF
+        need = NEG
+        for j in range(i - 1, max(-1, i - 1 - limit), -1):
+            if arrived[j] is not None:
+                need = max(need, arrived[j] + 1)
+            if f[j] == INF:
+                continue
+            if j == 0 and origin is not None and need > origin:
+                c = max(need, origin + P)      # an empty first window [origin, c)
+            else:
+                c = max(f[j], need)
+            if c > adm[j]:
+                continue             # (c = -inf for the unbounded first window with no demand)
+            if i == n:
+                return True
+            nxt = max(c + P, adm[i - 1] + 1)
+            if nxt <= adm[i]:
+                best = min(best, nxt)
+        f[i] = best
+    return False
+
+
+def feasible_bruteforce(adm, limit, P, arrived=None, origin=None):
+    """the same statement decided by trying every set of integer cuts (tiny inputs only)"""
+    n = len(adm)
+    if arrived is None:
+        arrived = [None] * n
+    if n == 0:
+        return True
+    lo = (min(adm + [a for a in arrived if a is not None]) - 1) if origin is None else origin
+    hi = max(adm) + 1
+
+    def window_ok(start, end):      # start None = -inf, end None = +inf
+        idx = [k for k in range(n) if (start is None or adm[k] >= start) and (end is None or adm[k] < end)]
+        if len(idx) > limit:
+            return False
+        return all(arrived[k] is None or (start is not None and start > arrived[k]) for k in idx)
+
+    def rec(start):
+        if window_ok(start, None):
+            return True
+        lo2 = lo if start is None else start + P
+        for c in range(lo2, hi + 1):
+            if window_ok(start, c) and rec(c):
+                return True
+        return False
+
+    if origin is None:
+        return rec(None)
+    if min(adm) < origin:
+        return False
+    return rec(origin)
